@@ -446,6 +446,10 @@ async def level2(sh, rig, r, regime, label):
     phases = [("healthy", r.choice([5, 30, 70])), ("blackout", r.choice([20, 150, 400])), ("healthy", r.choice([10, 140]))]
     if r.random() < 0.4:
         phases[1] = ("ping-outage", r.choice([150, 300, 400]))
+    elif r.random() < 0.3:
+        # RF fault: the in.touch2 module answers EVERYTHING, pings included, with RFERR (the simulator's
+        # own rferr mode) - traffic arrives all the time, but no ping is answered
+        phases[1] = ("rferr-outage", r.choice([150, 300, 400]))
     if r.random() < 0.3:
         # a client whose handler of ONE ping-received announcement takes minutes (a UI thread stuck):
         # the answer it announces is as old as it is, however late the handler returns
@@ -467,6 +471,7 @@ async def level2(sh, rig, r, regime, label):
     _parms = (rig.transport.local[0], rig.transport.local[1], _CID, _SID)
     for name, dur in phases:
         blackout["on"] = True if name == "blackout" else ("pings" if name == "ping-outage" else False)
+        rig.sim.sim._do_rferr = name == "rferr-outage"
         t_end = w.now + dur
         sh.see("phases", name)
         switch_at = w.now + r.choice([3.0, 6.0, 15.0]) if (name == "blackout" and r.random() < 0.6) else None
@@ -500,6 +505,7 @@ async def level2(sh, rig, r, regime, label):
             elif k == "rem":
                 users.append(asyncio.ensure_future(spa.async_get_reminders()))
     blackout["on"] = False
+    rig.sim.sim._do_rferr = False
     rig.event_delay = None
     done, pending = await asyncio.wait(users, timeout=800) if users else (set(), set())
     for t in pending:
